@@ -387,6 +387,14 @@ impl KeyExchangeClient {
 
         let response = KeyExchangeResponse::parse(&mut io).await?;
 
+        // The server has to choose from what we offered (RFC 8915 sections 4.1.2 and 4.1.5).
+        // Never adopt a next protocol or AEAD algorithm that was not in our request.
+        if !self.protocols.contains(&response.protocol)
+            || !self.algorithms.contains(&response.algorithm)
+        {
+            return Err(NtsError::Invalid);
+        }
+
         let keys = NtsKeys::extract_from_connection(
             io.get_ref().1,
             response.protocol,
